@@ -18,6 +18,7 @@ Step(e) ==
     [] e.a = "DeleteLink"   -> DeleteLink(e.i, e.sn, e.so, e.dn, e.do)
     [] e.a = "DeleteNode"   -> DeleteNode(e.i, e.n)
     [] e.a = "TouchDead"    -> TouchDead(e.i, e.n)
+    [] e.a = "SetMeta"      -> SetMeta(e.i, e.n, e.m)
     [] e.a = "InsertHugr"   -> InsertHugr(e.p)
 Matches(s, o) ==
   /\ s.live = ToSet(o.nodes) /\ Cardinality(s.live) = o.len
